@@ -605,6 +605,37 @@ func genChangeStore() *rapid.Generator[csCase] {
 	})
 }
 
+// reduceChangeStore lists the cases that are one element smaller.
+func reduceChangeStore(c csCase) []csCase {
+	var out []csCase
+	with := func(i int, repl *csOp) csCase {
+		ops := append([]csOp{}, c.Ops[:i]...)
+		if repl != nil {
+			ops = append(ops, *repl)
+		}
+		return csCase{Ops: append(ops, c.Ops[i+1:]...), FinalFailAt: c.FinalFailAt}
+	}
+	for i := range c.Ops {
+		out = append(out, with(i, nil))
+	}
+	if c.FinalFailAt != 0 {
+		out = append(out, csCase{Ops: c.Ops})
+	}
+	for i, op := range c.Ops {
+		if op.FailAt != 0 {
+			o := op
+			o.FailAt = 0
+			out = append(out, with(i, &o))
+		}
+		for j := range op.Changes {
+			o := op
+			o.Changes = append(append([]csChange{}, op.Changes[:j]...), op.Changes[j+1:]...)
+			out = append(out, with(i, &o))
+		}
+	}
+	return out
+}
+
 func TestC20ChangeStore(t *testing.T) {
-	runRapid(t, "changestore", "changestore", genChangeStore(), evalChangeStore)
+	runRapid(t, "changestore", "changestore", genChangeStore(), evalChangeStore, reduceChangeStore)
 }
